@@ -23,3 +23,5 @@ import FpVerif.Properties.C20_Trace
 #print axioms Fp.C20.trace_accepts_rr_from
 #print axioms Fp.C20.trace_accepts_rr
 #print axioms Fp.C20.trace_tracks_rr
+#print axioms Fp.C20.accepted_data_within_windows
+#print axioms Fp.C20.accepted_none_means_nothing_sendable
